@@ -356,6 +356,15 @@ func OpsFor(in *Instance, thorough bool) []Op {
 			return sha(b) + fmt.Sprint(err)
 		})
 		add("proto.Size", true, func(st *trie.SlimTrie) string { return fmt.Sprint(proto.Size(st)) })
+		add("Marshal+overwrite-result", true, func(st *trie.SlimTrie) string {
+			// the returned bytes belong to the caller, who may do with them what it wants
+			b, err := st.Marshal()
+			res := sha(b) + fmt.Sprint(err)
+			for i := range b {
+				b[i] = 0xa5
+			}
+			return res
+		})
 	}
 	return ops
 }
